@@ -766,6 +766,9 @@ P["C16"]["units"] += [
       "__item_free(it);", "__item_free/contract_C16___item_free",
       stubs=_C16S, defines=["VERIF_TU_JWKS"], flags=[], expect=["contract_C16___item_free\\.postcondition\\.3"], timeout=600),
 ]
+
+# (an API-level bounded unit 'load a keyring of <= 1 key under allocation failure through the public entry points only' was tried for
+# seed C16-B: the propositional reduction runs out of 12 GB; dropped -- DESIGN section 15)
 _REC_DOERS = ["__getter/contract_rec___getter", "__setter/contract_rec___setter", "__deleter/contract_rec___deleter"]
 for _w in ("header_get", "header_set", "claim_get", "claim_set"):
     P["C15"]["units"].append(U("C15.jwt_%s" % _w, "jwt_%s -> __run_it (libjwt/jwt-setget.c)" % _w, SETGET_C, "contracts/jwt_setget_c.h",
